@@ -81,8 +81,12 @@ class SuffixTrie(object):
             child = node.children.get(part)
 
             # Wildcards
+            # NOTE: a wildcard rule matches the label even when the label
+            # also starts a longer explicit rule
+            wildcard = node.children.get("*")
+
             if child is None:
-                child = node.children.get("*")
+                child = wildcard
 
             # If the current part is not in current node's children, we can stop
             if child is None:
@@ -95,6 +99,9 @@ class SuffixTrie(object):
             if node.leaf:
                 suffix_length = current_length
                 match = node
+            elif wildcard is not None and wildcard.leaf:
+                suffix_length = current_length
+                match = wildcard
 
         # Checking the node we finished on is a leaf and is one we allow
         if match is None:
